@@ -128,6 +128,7 @@ type Ctx struct {
 	axiomSeen map[string]bool
 	errIDs    int
 	epochs    int
+	csort     map[string]string // constant name -> sort
 }
 
 func newCtx(sr *SortReg) *Ctx {
@@ -167,8 +168,19 @@ func mangle(s string) string {
 	return b.String()
 }
 
+func (c *Ctx) constSort(name string) string {
+	if c.csort == nil {
+		return ""
+	}
+	return c.csort[name]
+}
+
 func (c *Ctx) declConst(name, sort string) string {
 	if !c.declared[name] {
+		if c.csort == nil {
+			c.csort = map[string]string{}
+		}
+		c.csort[name] = sort
 		c.declared[name] = true
 		c.decls = append(c.decls, fmt.Sprintf("(declare-fun %s () %s)", name, sort))
 	}
@@ -267,9 +279,15 @@ func (c *Ctx) render(pc []string, goal string, cover bool, cands []string, lens 
 		b.WriteString(d)
 		b.WriteByte('\n')
 	}
+	var patAxioms []string // lite mode: axioms with a pattern are instantiated by syntactic matching at the end
 	for _, a := range c.axioms {
+		if lite && !cover && envInt("GOVC_EMATCH", 1) == 1 && strings.HasPrefix(a, "(forall ") && strings.Contains(a, ":pattern") {
+			patAxioms = append(patAxioms, a)
+			continue
+		}
 		b.WriteString("(assert " + a + ")\n")
 	}
+	bodyStart := b.Len()
 	// distinctness of string literals
 	if len(c.strOrder) > 1 {
 		var names []string
@@ -325,7 +343,27 @@ func (c *Ctx) render(pc []string, goal string, cover bool, cands []string, lens 
 			parsed = append(parsed, t)
 		}
 	}
+	// index terms of the ground hypotheses and of the goal (positions a callee's postcondition or the
+	// goal itself talks about, e.g. lc(n, cnt/2)) are candidates as well, after the path's own
+	{
+		var ground []string
+		for _, p := range pc {
+			if !strings.Contains(p, "(forall ") && !strings.Contains(p, "(exists ") && strings.Contains(p, "(soff ") {
+				ground = append(ground, p)
+			}
+		}
+		pathCands = append(pathCands, newIndexTerms(ground, pathCands, envInt("GOVC_GROUND_CANDS", 0), false)...)
+		// index terms of the goal itself (cheap: a handful)
+		pathCands = append(pathCands, newIndexTerms([]string{g}, pathCands, envInt("GOVC_GOAL_CANDS", 8), true)...)
+	}
 	in.order(pathCands)
+	isInt := func(name string) bool {
+		if strings.HasPrefix(name, "sk!") || strings.HasPrefix(name, "hs!") {
+			return true // skolems of object binders are declared Int
+		}
+		return c.constSort(name) == "Int"
+	}
+	in.refCands = append(append([]string(nil), in.refPrime...), refTerms([]string{g}, envInt("GOVC_REF_CANDS", 10), isInt)...)
 	for _, d := range in.newDecl {
 		b.WriteString(d + "\n")
 	}
@@ -339,15 +377,32 @@ func (c *Ctx) render(pc []string, goal string, cover bool, cands []string, lens 
 			b.WriteString("(assert " + e + ")\n")
 		}
 	}
-	if len(in.cands) > 0 {
-		for _, t := range parsed {
-			in.collect(t, nil)
+	if len(in.cands) > 0 || len(in.refCands) > 0 {
+		// most recent hypotheses first: when the instance budget runs out it is the oldest facts
+		// (usually the least relevant for the goal) that go without instances
+		for k := len(parsed) - 1; k >= 0; k-- {
+			in.collect(parsed[k], nil)
+		}
+		// second round: index terms that the first round's instances introduced (e.g. mid+j from a
+		// callee's postcondition instantiated at j) become candidates for the one-binder hypotheses
+		if extra := newIndexTerms(in.out, in.cands, envInt("GOVC_ROUND2", 0), false); len(extra) > 0 {
+			in.cands = extra
+			in.limit += 600
+			in.max2 = 0
+			for _, t := range parsed {
+				in.collect(t, nil)
+			}
 		}
 		for _, i := range in.out {
 			b.WriteString("(assert " + i + ")\n")
 		}
 	}
 	b.WriteString("(assert (not " + g + "))\n")
+	if len(patAxioms) > 0 {
+		for _, inst := range ematch(patAxioms, b.String()[bodyStart:]) {
+			b.WriteString("(assert " + inst + ")\n")
+		}
+	}
 	b.WriteString("(check-sat)\n")
 	return b.String()
 }
